@@ -329,6 +329,49 @@ func runHistory(spec *SeqSpec, hist []SeqEvent) *SeqRun {
 					run.Status = append(run.Status, "env")
 					continue
 				}
+				if e.Op.K == "drain" {
+					// compound event: the applier processes buffered items until the write buffer
+					// is empty (each step is logged exactly like a separate applier event)
+					for guard := 0; guard < 64; guard++ {
+						_, app := daemonTids()
+						if app < 0 || len(c.BufShadow()) == 0 {
+							break
+						}
+						descs := vsched.Query(app)
+						if len(descs) == 0 || descs[0].Partner >= 0 {
+							break
+						}
+						head := c.BufShadow()
+						costsBefore := c.PolicyCosts()
+						st := vsched.Drive(app, 0)
+						for st == vsched.DriveChoice {
+							st = vsched.Drive(app, 0)
+						}
+						if len(c.BufShadow()) == len(head)-1 {
+							if it, ok := ristretto.VerifItem[int64](head[0]); ok {
+								v, _ := it.Value.(int64)
+								fl := int64(it.Flag)
+								if it.IsWait {
+									fl = 3
+								}
+								vsched.Log(evApplied, int64(it.Key), v, fl)
+							}
+						}
+						before := map[uint64]int64{}
+						for _, kc := range costsBefore {
+							before[kc.Key] = kc.Cost
+						}
+						for _, kc := range c.PolicyCosts() {
+							if old, had := before[kc.Key]; !had {
+								vsched.Log(evCost, int64(kc.Key), -1, kc.Cost)
+							} else if old != kc.Cost {
+								vsched.Log(evCost, int64(kc.Key), old, kc.Cost)
+							}
+						}
+					}
+					run.Status = append(run.Status, "env")
+					continue
+				}
 				runOp(c, *e.Op)
 				run.Status = append(run.Status, "env")
 				continue
@@ -563,7 +606,7 @@ func seqSearch(p *Prop, j *Job, spec *SeqSpec) *JobResult {
 			idle := t >= len(r.Post.ClientState) || r.Post.ClientState[t] == 'i'
 			for _, o := range ops {
 				o := o
-				if o.K == "advance" || o.K == "tick" || o.K == "sweep" {
+				if o.K == "advance" || o.K == "tick" || o.K == "sweep" || o.K == "drain" {
 					if t == 0 {
 						out = append(out, SeqEvent{K: "env", Op: &o})
 					}
